@@ -273,7 +273,7 @@ func cmdValComp(fs *flag.FlagSet) {
 	fs.Int64("seed", 1, "seed")
 	shards := fs.Int("shards", 8, "shards")
 	fs.Parse(os.Args[2:])
-	startWatchdog(20 * time.Second)
+	startWatchdog(60 * time.Second)
 	f, err := os.Open(*in)
 	if err != nil {
 		fatal("open: %v", err)
